@@ -281,6 +281,14 @@ def replay_case(args):
 REPLAYERS = {"case": replay_case}
 
 
+def float_pairs_case(args):
+    with cm.fixed_nf():
+        return pairs_for(args["case"], cm.ew_params(values=args["params"]), float(args["params"].get("Q2", 10.0)))
+
+
+REPLAYERS["case:pairs"] = float_pairs_case
+
+
 def run(chk, only=None):
     from yadism.coefficient_functions import coupling_constants as ccmod
     from yadism.coefficient_functions import kernels as K
